@@ -33,6 +33,8 @@ impl VLru {
     #[verifier::external_body]
     pub fn put(&mut self, k: PathBuf, v: VHandle) -> (r: Option<VHandle>)
         ensures final(self)@.contains_key(k@) && final(self)@[k@] == v,
+            // (lru::LruCache::put returns the value the key had, if it was present)
+            (r is Some) == old(self)@.contains_key(k@), r is Some ==> r->Some_0 == old(self)@[k@],
             // every other entry is either kept as it was or evicted
             forall|q: Seq<Component>| q != k@ && #[trigger] final(self)@.contains_key(q) ==> old(self)@.contains_key(q) && final(self)@[q] == old(self)@[q],
     { unimplemented!() }
